@@ -77,6 +77,11 @@ func (c *DefragmentationContext) init(o *DefragmentationInfo) error {
 	c.MaxPassBytes = o.MaxBytesPerPass
 	c.MaxPassAllocations = o.MaxAllocationsPerPass
 
+	// The context may have served an earlier run
+	c.blockListProgress = 0
+	c.pass = defrag.PassContext{}
+	c.stats = defrag.DefragmentationStats{}
+
 	if c.MaxPassBytes == 0 {
 		c.MaxPassBytes = math.MaxInt
 	}
